@@ -41,6 +41,13 @@ type Solver struct {
 	memo      map[string]Result
 	Log       io.Writer // optional transcript
 	dead      bool
+	// Scope: only axioms whose free symbols all carry this name prefix (one namespace per harness
+	// entry) are asserted in this solver; axioms of other entries running in the same process are
+	// irrelevant here.
+	Scope      string
+	axScanned  int
+	axPending  []*Term
+	axRelevant int
 }
 
 // global axiom instances (valid facts about UFs), asserted at base level in every solver.
@@ -155,15 +162,33 @@ func (s *Solver) define(t *Term) {
 	}
 }
 
-func (s *Solver) flushAxioms() {
+// syncAxioms picks the new global axioms that belong to this solver's scope.
+func (s *Solver) syncAxioms() {
 	tab.mu.Lock()
-	pend := append([]*Term(nil), axioms[s.axiomsOut:]...)
-	s.axiomsOut = len(axioms)
+	pend := append([]*Term(nil), axioms[s.axScanned:]...)
+	s.axScanned = len(axioms)
 	tab.mu.Unlock()
 	for _, a := range pend {
+		rel := true
+		for _, k := range symbolKeys(a) {
+			if strings.HasPrefix(k, "v:") && !strings.HasPrefix(k[2:], s.Scope) {
+				rel = false
+				break
+			}
+		}
+		if rel {
+			s.axPending = append(s.axPending, a)
+			s.axRelevant++
+		}
+	}
+}
+
+func (s *Solver) flushAxioms() {
+	for _, a := range s.axPending {
 		s.define(a)
 		s.send("(assert " + a.ref() + ")")
 	}
+	s.axPending = nil
 }
 
 func key(as []*Term) string {
@@ -251,7 +276,8 @@ func (s *Solver) check(as []*Term, syms []*Term) (Result, map[string]ModelVal) {
 			conj = append(conj, a)
 		}
 	}
-	k := key(conj) + fmt.Sprintf("|ax%d", NumAxioms())
+	s.syncAxioms()
+	k := key(conj) + fmt.Sprintf("|ax%d", s.axRelevant)
 	if syms == nil {
 		if r, ok := s.memo[k]; ok {
 			return r, nil
@@ -622,6 +648,7 @@ type Checker interface {
 // Router sends queries with string-theory content to cvc5 and everything else to z3, and
 // falls back to the other solvers when the first answers unknown.
 type Router struct {
+	Scope     string
 	TimeoutMs int
 	solvers   map[string]*Solver
 	Fallbacks int
@@ -637,6 +664,7 @@ func (r *Router) get(name string) *Solver {
 	if err != nil {
 		panic(err)
 	}
+	s.Scope = r.Scope
 	r.solvers[name] = s
 	return s
 }
